@@ -176,12 +176,18 @@ def main(argv=None):
             print(lean["log"])
             print("INFRA-ERROR: model driver does not build")
             return 2
+        t_run = time.time()
         mod.run(ctx)
+        t_run = time.time() - t_run
         tie_broken = bool(lean["failed"]) or bool(ctx.disagreements)
         if tie_broken and not ctx.pred_failures and hasattr(mod, "run"):
             # a broken proof / correspondence is not by itself a violation: search the
             # implementation for a concrete failing input with an extended budget
             ctx.search_mode = True
+            # extended budget: up to 10x the tier's cases, but bounded so that the search itself
+            # stays within ~5 min (quick) / ~20 min (thorough) of wall-clock
+            budget = 1200.0 if tier == "thorough" else 300.0
+            ctx.search_factor = max(1.0, min(10.0, budget / max(t_run, 1.0)))
             ctx.rng = Rng(seed ^ 0x5EA4C4)
             keep = list(ctx.disagreements)
             (getattr(mod, "search", None) or mod.run)(ctx)
